@@ -330,6 +330,8 @@ def rel_pred(draw, depth, cfg, root="Item"):
         k = draw(st.integers(0, 9))
         if k < 2:
             col = draw(st.sampled_from(sorted(COLS[tm])))
+            if draw(st.integers(0, 2)) == 0:
+                return ("cmp", draw(st.sampled_from(["eq", "ne"])), ("lit", "null", ""), path_of(list(segs) + [col]))
             return ("cmp", draw(st.sampled_from(["eq", "ne"])), path_of(list(segs) + [col]), ("lit", "null", ""))
         if k == 2:
             return ("cmp", draw(st.sampled_from(["eq", "ne"])), path_of(list(segs)), ("lit", "null", ""))
